@@ -1268,24 +1268,6 @@ func (r *runner) bsetrun(h, lo, cnt int) {
 	})
 }
 
-// bloadmany: many blocks built by the harness (struct literals), one event.
-func (r *runner) bloadmany(kind string, hs []int, starts []uint32, mss [][]int) {
-	sd := make([][]int, len(starts))
-	for i, st := range starts {
-		sd[i] = startDigits(st)
-	}
-	r.emit(tr.E{"op": "bloadmany", "kind": kind, "hs": hs, "starts": sd, "mss": mss}, func() (interface{}, bool) {
-		for i, h := range hs {
-			if kind == "big" {
-				r.blk[h-1] = &block{kind: kind, big: &bmp.BigU32{Start: starts[i], B1024: fromMembers(mss[i])}}
-			} else {
-				r.blk[h-1] = &block{kind: kind, tip: &bmp.U32BitTip{Start: starts[i], B1024: fromMembers(mss[i])}}
-			}
-		}
-		return 0, false
-	})
-}
-
 // longLists: lists of 255 / 256 / 257 (and a few other lengths) blocks, some of them empty, read in
 // both directions with n below, at and above the total; a block filled by a run of 1024 Set calls.
 func (r *runner) longLists(kind string) {
@@ -1309,7 +1291,9 @@ func (r *runner) longLists(kind string) {
 		}
 		total += len(mss[i])
 	}
-	r.bloadmany(kind, hs, starts, mss)
+	for i, h := range hs { // built by the harness (struct literals), one small event each
+		r.bload(h, kind, starts[i], mss[i])
+	}
 	for _, dir := range []string{"f", "r"} {
 		r.lgetn(kind, hs, dir, []int{total - 1, total, total + 1, 255, 256, 257, 1}[r.rng.Intn(7)])
 	}
